@@ -24,6 +24,20 @@ PROPERTY InsertThenRemoveIsIdentity
 CHECK_DEADLOCK FALSE
 """
 NDOCS = 4
+ENC_CFG = """SPECIFICATION Spec
+CONSTANTS
+  Stmts <- MCStmts
+  MaxN = %d
+  MaxPath = %d
+  EMIT = FALSE
+  RICH = 0
+  INLINE = FALSE
+  NARROW = %d
+  UNIFORM = TRUE
+  EDITS = %d
+INVARIANT EncodeKeepsContent
+CHECK_DEADLOCK FALSE
+"""
 
 
 def known_for(ctx, m):
@@ -39,6 +53,17 @@ def known_for(ctx, m):
 
 def run(ctx):
     h = ctx.build(features=("preserve_order",))
+    # specification level: what the implementation-shaped printer (EncodeImpl: position-less tables follow the table
+    # collected before them, stable sort by position, hidden implicit tables, dotted tables flattened) writes re-parses
+    # to the content of the tree, for every parsed statement sequence of the scope and every <= EDITS insert / remove
+    scopes = [(3, 2, 0, 1, "wide"), (5, 3, 1, 1, "narrow"), (5, 3, 2, 1, "narrow2")]
+    if not ctx.quick:
+        scopes += [(4, 2, 0, 1, "wide4"), (3, 2, 0, 2, "wide-2edits"), (4, 3, 1, 2, "narrow-2edits"), (5, 3, 2, 2, "narrow2-2edits")]
+    for (n, pth, narrow, edits, tag) in scopes:
+        r = ctx.tlc("MCEncode", ENC_CFG % (n, pth, narrow, edits), tag="encode-" + tag, workers=8, timeout=7200)
+        ctx.extra.setdefault("EncodeImpl_prints_what_the_tree_holds", []).append(
+            {"scope": tag, "MaxN": n, "MaxPath": pth, "edits": edits, "distinct_states": r.distinct})
+        log("MCEncode %s: %d distinct states, %.1fs" % (tag, r.distinct, r.wall))
     # the start documents as text (from the committed module, via TLC's own parse in MCEdit)
     docs = []
     src = open(os.path.join(core.SPEC, "EditDocs.tla")).read()
@@ -69,6 +94,14 @@ def run(ctx):
         if len(ctx.samples) < 4 and len(e["steps"]) == 2 and all(s["res"] == "ok" for s in e["steps"]) and len(ctx.nontrivial) % 97 == 0:
             ctx.sample({"doc": e["doc"], "ops": [[s["op"], [core.uncps(x) if x and x[0] >= 0 else x for x in s["path"]], core.uncps(s["key"]), s["i"]] for s in e["steps"]],
                         "printed_after_last_step": core.uncps(e["steps"][-1]["text"])})
+    # model drift of the implementation-shaped printer (EncodeImpl): reported in the evidence, never a violation
+    drift = [m for m in mism if m["what"] == "drift-encode"]
+    mism = [m for m in mism if m["what"] != "drift-encode"]
+    compared = sum(1 for e in core.read_ndjson(evp) for k, s in enumerate(e["steps"])
+                   if s["res"] == "ok" and all(x["op"] in ("insert", "remove") for x in e["steps"][:k + 1]))
+    ctx.extra["model_drift_EncodeImpl"] = {"histories": n, "insert_remove_steps_leading_a_history": compared, "statement_order_mismatches": len(drift),
+                                           "first": [{"doc": m["event"]["doc"], "step": m["detail"]["step"], "op": m["detail"]["op"]} for m in drift[:5]]}
+    log("model drift (EncodeImpl vs printed statement order): %d mismatches, %d insert/remove steps at the head of %d histories" % (len(drift), compared, n))
     cls = collections.Counter((m["what"], m["detail"].get("op")) for m in mism)
     log("edit: %d histories, %d steps validated (%d not applicable to the API), %d mismatches %s" % (n, steps, skipped, len(mism), dict(cls)))
     for m in mism:
